@@ -3,6 +3,7 @@
    Go code on every run by the correspondence of Raft/Wire.v.run_case with the real `core` objects. *)
 From Coq Require Import List NArith ZArith.
 From BLB Require Import Lib.LTS Raft.Core Raft.Wire Raft.NodeElect Raft.NodeMono Raft.NodeLeader Raft.NodeConf Raft.Election Raft.ElectionFixed Raft.ElectionExample Raft.Mechanisms C02.Proofs.
+From BLB Require Import Raft.LogMatchLists Raft.LogMatchNode Raft.LogMatch Raft.LogMatchExample.
 Import ListNotations.
 Open Scope N_scope.
 
@@ -149,11 +150,43 @@ Theorem stale_term_ignored :
 Proof. exact Raft.Mechanisms.stale_term_ignored. Qed.
 Print Assumptions stale_term_ignored.
 
+(* [FULL] clause 2, log matching, for fixed membership and schedules without snapshot and log trim. System of Raft/Election.v, all
+   nodes start with empty log, no snapshot and no configuration (linit). Restricted alphabet lstep n bm be = the events of
+   sstep2 (any interleaving of deliveries of any message ever sent to any node in any order and multiplicity, ticks,
+   proposals that carry no configuration of another size, restarts, each with or without a crash right after any durable
+   mutation followed by newCore; no AddNode or RemoveNode) minus SnapshotDone, every Bootstrap event carrying one and the
+   same membership bm (as many members as nodes) and epoch be. In every reachable state, if the logs of two nodes hold
+   entries with the same index and term, these sit at the same position and the two logs are identical up to and including
+   that position *)
+Theorem log_matching :
+  forall (bm : list nid) (be : N) (σ0 σ : sys) (sched : list sys_event),
+    linit σ0 ->
+    run sys sys_event (lstep (length (sy_nodes σ0)) bm be) σ0 sched σ ->
+    forall a b k k' e e',
+      In a (sy_nodes σ) -> In b (sy_nodes σ) ->
+      nth_error (p_log (n_p a)) k = Some e -> nth_error (p_log (n_p b)) k' = Some e' ->
+      e_index e = e_index e' -> e_term e = e_term e' ->
+      k = k' /\ firstn (S k) (p_log (n_p a)) = firstn (S k) (p_log (n_p b)).
+Proof. exact Raft.LogMatch.log_matching_sys. Qed.
+Print Assumptions log_matching.
+
+(* [FULL] non-vacuity of log_matching: a concrete 11-step run of two nodes (bootstrap, time-out, election by a VoteReq and VoteResp
+   exchange, a proposal, a rejected consistency check, the retry carrying both entries delivered with a crash right after
+   the durable append, then a duplicate and a stale delivery) meets every hypothesis and ends with two different nodes
+   holding the replicated entry of index 2 and term 2 *)
+Theorem log_matching_nonvacuous :
+  exists σ0 sched σ a b e,
+    linit σ0 /\ run sys sys_event (lstep (length (sy_nodes σ0)) [1; 2] 5) σ0 sched σ /\
+    In a (sy_nodes σ) /\ In b (sy_nodes σ) /\ n_id a <> n_id b /\
+    nth_error (p_log (n_p a)) 1 = Some e /\ nth_error (p_log (n_p b)) 1 = Some e /\ e_index e = 2 /\ e_term e = 2 /\
+    length sched = 11%nat.
+Proof. exact Raft.LogMatchExample.log_matching_nonvacuous. Qed.
+Print Assumptions log_matching_nonvacuous.
+
 (* NOT YET PROVED (statements kept visible; listed in props/C02.json not_yet_proved):
-   clause 2  log_matching : in every reachable system state, two logs holding an entry with the same index and term are
-             identical up to that index (invariants L1, L2, LM, AM of DESIGN appendix A.1; needs election_safety);
    clause 3  leader_completeness : an entry, once committed, is in the log (or snapshot) of every later leader;
    clause 4  state_machine_safety : no two nodes hand different entries at the same index to TakeNewlyCommitted;
+   log_matching across snapshot installation / log trim and across AddNode/RemoveNode;
    commit_le_last (refuted by F10 on the current code: C07 restart_storage_consistent_refuted; checked by a monitor);
    and the extension of election_safety to AddNode/RemoveNode (quorums of Members and Members +/- 1 intersect).
    On the real code all four clauses are evaluated after every event by the monitors of the Go simulation. *)
